@@ -43,7 +43,7 @@ def main():
             na.append({"property_id": pid, "reason": (c or {}).get("reason", NOT_YET)})
     m = {
         "version": 1,
-        "setup_cmd": f"cd gosym && {ENV} go build -o ../bin/gosym ./cmd/gosym",
+        "setup_cmd": f"sh tools/mk_fixtures.sh && cd gosym && {ENV} go build -o ../bin/gosym ./cmd/gosym",
         "hooks": {
             "guard": "verif",
             "enable": "no source hooks: harness files are injected into the packages under test with go/packages Overlay (engine) and go test -overlay (native replay); nothing in /repo is guarded",
